@@ -363,6 +363,8 @@ def main(spec_by_id):
     a = ap.parse_args()
     seed = int(os.environ.get("VERIF_SEED", "0") or 0)
     spec = spec_by_id[a.pid]()
+    if a.tier == "thorough":
+        os.environ.setdefault("PYVC_CROSSCHECK", "1")      # every obligation z3 discharges is also given to cvc5
     try:
         rc = run_check(spec, a.tier, os.path.abspath(a.repo), seed)
     except Exception:      # noqa
